@@ -115,7 +115,8 @@ class C15(Property):
       nv = 3 if small else len(VALS)
       for _ in range(n):
         op = W.weighted("op", [(10, "set"), (6, "sett"), (6, "del"),
-                               (2, "gett"), (2, "rebuild"), (1, "copycon")])
+                               (2, "gett"), (2, "rebuild"), (1, "copycon"),
+                               (2, "swap")])
         if op == "set":
           ops.append(["set", W.choose("k", nk), W.choose("v", nv)])
         elif op == "sett":
@@ -127,8 +128,8 @@ class C15(Property):
         elif op == "gett":
           m = W.span("tl", 1, 3)
           ops.append(["gett", [W.choose("k", nk) for _ in range(m)]])
-        elif op == "copycon":
-          ops.append(["copycon"])
+        elif op in ("copycon", "swap"):
+          ops.append([op])
         else:
           m = W.span("nd", 0, 5)
           pairs = []
@@ -145,7 +146,7 @@ class C15(Property):
       for _ in range(n):
         op = W.weighted("op", [(8, "strategy"), (6, "set"), (4, "sett"),
                                (8, "del"), (4, "delattr"), (2, "call"),
-                               (1, "setattr")])
+                               (1, "setattr"), (2, "swap")])
         if op in ("strategy", "sett"):
           m = W.span("tl", 1, 3)
           ent = [op, [W.choose("n", nn) for _ in range(m)], W.choose("f", nf)]
@@ -154,6 +155,8 @@ class C15(Property):
           ops.append(ent)
         elif op == "set":
           ops.append(["set", W.choose("n", nn), W.choose("f", nf)])
+        elif op == "swap":
+          ops.append(["swap"])
         elif op in ("del", "delattr", "setattr"):
           ops.append([op, W.choose("n", nn)])
         else:
@@ -231,6 +234,9 @@ class C15(Property):
           if op[0] == "copycon":
             out.append("d = MultiKeyDict(d)")
             continue
+          if op[0] == "swap":
+            out.append("<continue on the other MultiKeyDict instance>")
+            continue
           out.append("d = MultiKeyDict(%r)" % (
             [(tuple(KEYS[x] for x in k) if isinstance(k, list) else KEYS[k],
               VALS[v]) for k, v in op[1]],))
@@ -250,6 +256,8 @@ class C15(Property):
           out.append("del sd.%s" % NAMES[op[1]])
         elif op[0] == "setattr":
           out.append("sd.%s = <junk>" % NAMES[op[1]])
+        elif op[0] == "swap":
+          out.append("<continue on the other StrategyDict instance>")
         else:
           out.append("sd(*range(%d))" % op[1])
     return out
@@ -260,6 +268,7 @@ class C15(Property):
     m = MultiKeyModel()
     mutating = 0
     shadows = []
+    twin = []
     self._observe_mkd(d, m, "init")
     for op in ops:
       name = op[0]
@@ -283,6 +292,13 @@ class C15(Property):
         keys = tuple(KEYS[k] for k in op[1])
         self._same_outcome(lambda: d[keys], lambda: m.get_tuple(keys),
                            "getitem-tuple", "d[%r]" % (keys,))
+      elif name == "swap":
+        # a second, independent instance is alive at the same time: work
+        # continues on the other one, the parked one must not change
+        if not twin:
+          twin.append((self.core.MultiKeyDict(), MultiKeyModel()))
+        (d, m), twin[0] = twin[0], (d, m)
+        probes.add("two-instances-alive")
       elif name == "copycon":
         # the source stays alive: it must not change when the copy does
         import copy as _copy
@@ -343,6 +359,8 @@ class C15(Property):
       self._observe_mkd(d, m, name)
       for od, om in shadows:
         self._observe_mkd(od, om, name + " (on its copy)")
+      for od, om in twin:
+        self._observe_mkd(od, om, name + " (on the other instance)")
       if shadows:
         probes.add("source-of-a-copy-still-alive")
     return mutating
@@ -412,6 +430,7 @@ class C15(Property):
     strats = make_strats()
     mutating = 0
     self.dirty = set()     # names whose attribute was overwritten by hand
+    twin = []
     self._observe_sd(sd, m, "init")
     for op in ops:
       name = op[0]
@@ -470,6 +489,12 @@ class C15(Property):
           raise _Mismatch("model-mismatch", "delattr",
                           "del sd.%s created an item" % nm)
         mutating += 1
+      elif name == "swap":
+        if not twin:
+          twin.append((self.core.StrategyDict("sim_sd_twin"), StrategyModel(),
+                       set()))
+        (sd, m, self.dirty), twin[0] = twin[0], (sd, m, self.dirty)
+        probes.add("two-instances-alive")
       elif name == "setattr":
         # the user overwrites an attribute by hand: until the name is
         # assigned again nothing is promised about that attribute
@@ -496,6 +521,13 @@ class C15(Property):
       events.append("%s %r" % (name, m.canon()))
       res.states.append(stable_hash(m.canon()))
       self._observe_sd(sd, m, name)
+      for osd, om, odirty in twin:
+        keep = self.dirty
+        self.dirty = odirty
+        try:
+          self._observe_sd(osd, om, name + " (on the other instance)")
+        finally:
+          self.dirty = keep
     return mutating
 
   def _observe_sd(self, sd, m, after):
